@@ -241,10 +241,11 @@ type FloatVal struct{ F float64 }
 
 // Blob is an opaque byte string of symbolic length produced by a codec stub.
 type Blob struct {
-	ID   int
-	Len  *Term       // BV64
-	Msg  interface{} // the encoded message snapshot (codec-specific)
-	Kind string
+	ID      int
+	Len     *Term       // BV64
+	Msg     interface{} // the encoded message snapshot (codec-specific)
+	Kind    string
+	MsgType types.Type // static type of the encoded message (for image export)
 }
 
 func describe(v Value) string {
